@@ -200,6 +200,53 @@ def r2(ctx):
         yield VIOL("C19-R2", "from_auth_header/insert-kv", "insert(key, value) is not (parts[0], parts[1]): key idx %s value idx %s" % (ki, vi), where=b.span_of_block(site_blk))
     else:
         yield PASS("C19-R2", "from_auth_header/insert-kv", "insert(parts[0], parts[1])", [])
+    # what is split at '=' is the list element trimmed of ASCII whitespace on BOTH sides (`Credential=x , Signed..`: the
+    # blank before the comma is not part of the value), and it is cut at the first '=' into exactly two pieces
+    TRIM, HALF = r"^canonical::trim_ascii$", r"canonical::trim_ascii_(start|end)$|slice::(ascii::)?<impl \[u8\]>::trim_ascii_(start|end)$"
+    probs = []
+    for nm, o in (("name", k_op), ("value", v_op)):
+        sl = b.slice_op(o)
+        tr = sl.find_calls(TRIM) + sl.find_calls(r"slice::(ascii::)?<impl \[u8\]>::trim_ascii$")
+        if not tr or sl.find_calls(HALF):
+            probs.append("the parameter %s is not cut from the element trimmed on both sides (trim_ascii)" % nm)
+        else:
+            # the innermost trim is applied to the split(',') element itself
+            inner = [t_ for _, t_ in tr if not [c_ for c_ in b.slice_op(t_["args"][0]).callee_names() if not re.search(r"Iterator::next$|IntoIterator::into_iter$|slice::<impl \[T\]>::split$|Iterator::map$|Iterator::filter$|slice::<impl \[T\]>::is_empty$|canonical::trim_ascii$|Index::index$|Deref::deref$|Iterator::collect$|slice::<impl \[T\]>::splitn$|Vec::<T, A>::len$|Iterator::position$|slice::<impl \[T\]>::iter$|Option::<T>::unwrap_or$", c_)]]
+            if not inner:
+                probs.append("trim_ascii is not applied to the comma-separated element as it is")
+    for bi_, t_ in b.calls(r"slice::<impl \[T\]>::splitn$|str>::splitn$"):
+        n_ = const_value(op_const(b.resolve_copy(t_["args"][1])) or {})
+        if n_ != 2:
+            probs.append("splitn(%s, ..): a piece is cut at every separator up to the %s-th, the value loses what follows its own '=' / the header its parameters" % (n_, n_))
+    # `parameter.split(b'=')` (every '=') instead of splitn(2, ..): `Credential=AK=ID/..` has three pieces
+    for bi_, t_ in b.calls(r"slice::<impl \[T\]>::(split|rsplit|rsplitn|split_inclusive)$|str>::(split|rsplit|rsplitn)$"):
+        cd_ = b.origin_def(t_["args"][-1])
+        sepc = None
+        if cd_ and cd_[0] == "def" and cd_[1]["kind"] == "assign" and cd_[1]["stmt"]["rv"].get("closure"):
+            kb_ = b.facts.find_bodies("^" + re.escape(cd_[1]["stmt"]["rv"]["closure"]) + "$", include_absorbed=True)
+            if kb_:
+                cs_ = [const_value(op_const(x)) for _, _, st_ in kb_[0].stmts() if st_["k"] == "assign" and st_["rv"]["k"] == "binop" for x in (st_["rv"]["l"], st_["rv"]["r"]) if op_const(x) is not None]
+                sepc = cs_[0] if len(cs_) == 1 else None
+        elif op_const(t_["args"][-1]) is not None:
+            sepc = const_value(op_const(t_["args"][-1]))
+        if sepc in (ord("="), "="):
+            probs.append("`%s` at '=' cuts a parameter at EVERY '=' (or from the wrong end): the value must be everything after the first one" % t_["callee"].split("::")[-1])
+    if probs:
+        yield VIOL("C19-R2", "from_auth_header/param-trim", "; ".join(sorted(set(probs))), where=b.span_of_block(site_blk))
+    else:
+        yield PASS("C19-R2", "from_auth_header/param-trim", "name / value cut from trim_ascii(element) at the first '=' (splitn(2, ..))", [])
+    # the algorithm token is compared on the header trimmed on both sides
+    alg = []
+    for bi_, t_ in cmp_calls(b, r"PartialEq::(eq|ne)$"):
+        sides = [b.slice_op(x) for x in t_["args"]]
+        if any(b"AWS4-HMAC-SHA256" in sl_.const_values() or "AWS4-HMAC-SHA256" in sl_.const_values() for sl_ in sides):
+            alg.append((bi_, t_, sides))
+    if len(alg) == 1:
+        other = [sl_ for sl_ in alg[0][2] if not (b"AWS4-HMAC-SHA256" in sl_.const_values() or "AWS4-HMAC-SHA256" in sl_.const_values())]
+        if not other or not (other[0].find_calls(TRIM) or other[0].find_calls(r"slice::(ascii::)?<impl \[u8\]>::trim_ascii$")) or other[0].find_calls(HALF):
+            yield VIOL("C19-R2", "from_auth_header/header-trim", "the algorithm token is not taken from the Authorization value trimmed of ASCII whitespace on both sides (a leading TAB survives normalisation)", where=b.span_of_block(alg[0][0]))
+        else:
+            yield PASS("C19-R2", "from_auth_header/header-trim", "algorithm = first token of trim_ascii(header value)", [])
 
 
 @M.rule("C19-R3", "X-Amz-Date takes precedence over Date; first security-token header")
@@ -443,7 +490,10 @@ def r7(ctx):
             none = [st["otherwise"]]
         if some and none:
             r = b._reachable_from(some[0], avoid={nx[0][0]})
-            if none[0] in r:
+            # a `break` lands on the code after the loop (not necessarily on the None arm's own first block): from inside an
+            # iteration, without going through the loop head again, no success result may be reachable
+            oks = {ob for ob, _, _ in result_aggs(b, "Ok")}
+            if none[0] in r or (oks & r):
                 yield VIOL("C19-R7", "from_auth_header/params-loop-break", "the parameter loop can be left from inside an iteration without an error (`break`): later parameters are not read", where=b.span_of_block(nx[0][0]))
             elif not bad:
                 yield PASS("C19-R7", "from_auth_header/params-read-to-end", "for-loop over split(','): an iteration ends in the next iteration or an error return", [site(b, nx[0][0], "next")])
